@@ -211,3 +211,36 @@ func VerifTickerRestart(withTick int) {
 	t.Stop()
 	vCover("ticker-restart")
 }
+
+// VerifJitterArm: the interval lemma at full bit-width. Whatever d > 0 and 0 <= jitter < d are -
+// including durations at the top of int64, where d + offset wraps around - every timer the ticker
+// arms (at construction, at Reset, and when it re-arms itself after a tick) is armed for at least
+// d - jitter. A timer armed for less ticks early (a negative duration fires at once), so this is
+// the spacing clause of C20 for the durations the time model's clock cannot hold (>= 2^59 ns).
+// vLastTimerDuration() is the duration argument of the most recent time.AfterFunc / Timer.Reset.
+// args: 0 construction, 1 construction then Reset with other arguments, 2 construction and one tick
+//verif:case C20 quick VerifJitterArm 0..2 @arith=1 @noreplay=1 @fires=1
+func VerifJitterArm(scenario int) {
+	d := time.Duration(vNondetInt("d"))
+	j := time.Duration(vNondetInt("jitter"))
+	vAssume(vAnd(d > 0, vAnd(0 <= j, j < d)))
+	t := NewJitterTicker(d, j)
+	armed := time.Duration(vLastTimerDuration())
+	vAssert(armed >= d-j, "ticker/timer-armed-for-at-least-d-minus-jitter")
+	if scenario == 1 {
+		d2 := time.Duration(vNondetInt("d2"))
+		j2 := time.Duration(vNondetInt("jitter2"))
+		vAssume(vAnd(d2 > 0, vAnd(0 <= j2, j2 < d2)))
+		t.Reset(d2, j2)
+		armed2 := time.Duration(vLastTimerDuration())
+		vAssert(armed2 >= d2-j2, "ticker/timer-armed-for-at-least-d-minus-jitter")
+	}
+	if scenario == 2 {
+		vQuiesce() // the timer fires once (@fires=1) and the ticker re-arms itself
+		armed3 := time.Duration(vLastTimerDuration())
+		vAssert(armed3 >= d-j, "ticker/timer-armed-for-at-least-d-minus-jitter")
+		vAssert(len(t.C) == 1, "ticker/arm-harness-saw-the-tick")
+	}
+	t.Stop()
+	vCover("ticker-arm")
+}
